@@ -11,6 +11,7 @@ import hashlib
 import json
 import multiprocessing
 import os
+import re
 import shutil
 import sys
 import tempfile
@@ -23,6 +24,7 @@ SEED = int(os.environ.get("VERIF_SEED", "0") or 0)
 
 SCRATCH_ROOT = None  # run-private scratch root
 _BOOTED = False
+MAX_REPORT = int(os.environ.get("VERIF_MAX_REPORT", "25"))
 
 
 class HarnessError(Exception):
@@ -81,6 +83,22 @@ class _OsProxy:
         return ENTROPY.urandom(n)
 
 
+class _SocketProxy:
+    """DNS seam: gethostbyname answers from a fixed table, everything else fails to resolve."""
+
+    def __init__(self, real):
+        self._real = real
+
+    def __getattr__(self, name):
+        return getattr(self._real, name)
+
+    def gethostbyname(self, name):
+        from mc.ref.fields import DNS_TABLE
+        if name in DNS_TABLE:
+            return DNS_TABLE[name]
+        raise self._real.gaierror(-2, "Name or service not known")
+
+
 def bootstrap():
     """Bind to the tree under test and install the seams. Must run before cincoconfig import."""
     global SCRATCH_ROOT, _BOOTED
@@ -107,6 +125,8 @@ def bootstrap():
     import cincoconfig.fields.secure_field as sf
     enc.os = _OsProxy(os)
     sf.os = _OsProxy(os)
+    import cincoconfig.fields.net_field as nf
+    nf.socket = _SocketProxy(nf.socket)
     assert cincoconfig.Config.DEFAULT_CINCOKEY_FILEPATH == os.path.join(home, ".cincokey")
     _BOOTED = True
 
@@ -117,11 +137,19 @@ def _cleanup(pid, path):
 
 
 def home_dir():
-    return os.path.join(SCRATCH_ROOT, "home")
+    """Per-process HOME (workers are forked, so each gets its own; the library's frozen default
+    key-file path is re-pointed to match, keeping `~/.cincokey` semantics)."""
+    home = os.path.join(worker_dir(), "home")
+    if os.environ.get("HOME") != home or not os.path.isdir(home):
+        os.makedirs(home, exist_ok=True)
+        os.environ["HOME"] = home
+        import cincoconfig
+        cincoconfig.Config.DEFAULT_CINCOKEY_FILEPATH = os.path.join(home, ".cincokey")
+    return home
 
 
 def default_keyfile():
-    return os.path.join(SCRATCH_ROOT, "home", ".cincokey")
+    return os.path.join(home_dir(), ".cincokey")
 
 
 # --------------------------------------------------------------------------------------------
@@ -219,6 +247,7 @@ def _run_one(args):
     mod = sys.modules[modname]
     ctx = Ctx(mod.PROP, job)
     ENTROPY.reseed(job.get("name", ""))
+    home_dir()
     ctx.tmp = fresh_dir("job")
     cwd = os.getcwd()
     try:
@@ -264,9 +293,21 @@ def load_known():
         if not line.startswith("known:"):
             continue
         parts = line[len("known:"):].split(None, 2)
-        kv = dict(p.split("=", 1) for p in parts[:2])
-        known[(kv["property"], kv["fp"])] = parts[2] if len(parts) > 2 else ""
+        prop = parts[0].split("=", 1)[1]
+        if parts[1].startswith("fp~="):
+            known.setdefault("re", []).append((prop, re.compile(parts[1][4:]), parts[2] if len(parts) > 2 else ""))
+        else:
+            known[(prop, parts[1].split("=", 1)[1])] = parts[2] if len(parts) > 2 else ""
     return known
+
+
+def match_known(known, prop, fp):
+    if (prop, fp) in known:
+        return known[(prop, fp)] or fp
+    for p, rx, what in known.get("re", []):
+        if p == prop and rx.fullmatch(fp):
+            return what or rx.pattern
+    return None
 
 
 # --------------------------------------------------------------------------------------------
@@ -320,15 +361,16 @@ def run_property(mod, tier, nproc=None):
     reported, matched = [], []
     for fp in sorted(viol):
         v = viol[fp]
-        if (mod.PROP, fp) in known:
-            matched.append((fp, known[(mod.PROP, fp)]))
+        what = match_known(known, mod.PROP, fp)
+        if what is not None:
+            matched.append((fp, what))
         else:
             reported.append(v)
 
     # replay discipline: a violation is only reported if it reproduces identically twice
     out_dir = os.path.join(VERIF, "out", "replays", mod.PROP)
     lines = []
-    for v in reported:
+    for v in reported[:MAX_REPORT]:
         for attempt in range(2):
             rr = run_case(mod, v["case"])
             if rr.get("harness_error"):
@@ -347,8 +389,10 @@ def run_property(mod, tier, nproc=None):
         lines.append("VIOLATION property=%s replay=%s" % (mod.PROP, path))
         sys.stdout.write("  fp=%s\n  %s\n" % (v["fp"], v["msg"]))
 
-    for fp, what in matched:
-        sys.stdout.write("KNOWN-FINDING: property=%s %s\n" % (mod.PROP, what or fp))
+    if len(reported) > MAX_REPORT:
+        sys.stdout.write("  ... %d further distinct violation fingerprints not written out\n" % (len(reported) - MAX_REPORT))
+    for what in sorted(set(w for _, w in matched)):
+        sys.stdout.write("KNOWN-FINDING: property=%s %s\n" % (mod.PROP, what))
     for line in lines:
         sys.stdout.write(line + "\n")
 
